@@ -24,6 +24,14 @@ func ZZ_C12_ersIsolation() {
 	if migration {
 		ds.Annotations[datadoghqv1alpha1.ExtendedDaemonSetOldDaemonsetAnnotationKey] = "legacy"
 	}
+	// the replica set keeps a copy of the annotations the ExtendedDaemonSet had when it was created: a
+	// migration that is no longer declared on the ExtendedDaemonSet is over, whatever the copy says
+	if nondet.Bool("replicaSetKeepsStaleMigrationCopy") {
+		if rsNew.Annotations == nil {
+			rsNew.Annotations = map[string]string{}
+		}
+		rsNew.Annotations[datadoghqv1alpha1.ExtendedDaemonSetOldDaemonsetAnnotationKey] = "legacy"
+	}
 	// DaemonSets: "legacy" in ns (the declared one), "legacy" in ns2, "other" in ns — same selector
 	sel := &metav1.LabelSelector{MatchLabels: map[string]string{"app": "agent"}}
 	c.DaemonSets = append(c.DaemonSets,
